@@ -29,6 +29,8 @@ type Engine struct {
 	funcIDs   map[*ssa.Function]int
 	mu        sync.Mutex
 	globStore map[string]bool // globals stored outside init
+	constMaps  map[*ssa.Global][]*ssa.Const
+	constMapOK map[*ssa.Global]bool
 	globOnce  sync.Once
 	inlinable map[*ssa.Function]bool
 	tags      string
@@ -246,6 +248,99 @@ func (e *Engine) scanGlobalStores() {
 			}
 		}
 	}
+}
+
+// constMapValues: for a package-level map that is built once in init from a
+// composite literal with constant values and is only ever read (lookup, range,
+// len) anywhere in the module, the set of values it holds.
+func (e *Engine) constMapValues(g *ssa.Global) ([]*ssa.Const, bool) {
+	e.mu.Lock()
+	if e.constMaps == nil {
+		e.constMaps = map[*ssa.Global][]*ssa.Const{}
+		e.constMapOK = map[*ssa.Global]bool{}
+	}
+	if ok, done := e.constMapOK[g]; done {
+		vals := e.constMaps[g]
+		e.mu.Unlock()
+		return vals, ok
+	}
+	e.mu.Unlock()
+	vals, ok := e.computeConstMap(g)
+	e.mu.Lock()
+	e.constMaps[g], e.constMapOK[g] = vals, ok
+	e.mu.Unlock()
+	return vals, ok
+}
+
+func (e *Engine) computeConstMap(g *ssa.Global) ([]*ssa.Const, bool) {
+	if g.Pkg == nil || !e.constGlobal(g.Pkg.Pkg.Path()+"."+g.Name()) {
+		return nil, false
+	}
+	if _, isMap := g.Type().(*types.Pointer).Elem().Underlying().(*types.Map); !isMap {
+		return nil, false
+	}
+	init := g.Pkg.Func("init")
+	if init == nil {
+		return nil, false
+	}
+	var mk *ssa.MakeMap
+	nstores := 0
+	for _, b := range init.Blocks {
+		for _, in := range b.Instrs {
+			if st, ok := in.(*ssa.Store); ok && st.Addr == g {
+				nstores++
+				mk, _ = st.Val.(*ssa.MakeMap)
+			}
+		}
+	}
+	if nstores != 1 || mk == nil || mk.Referrers() == nil {
+		return nil, false
+	}
+	var vals []*ssa.Const
+	for _, ref := range *mk.Referrers() {
+		switch r := ref.(type) {
+		case *ssa.MapUpdate:
+			cv, ok := r.Value.(*ssa.Const)
+			if !ok || r.Map != mk {
+				return nil, false
+			}
+			vals = append(vals, cv)
+		case *ssa.Store:
+			if r.Addr != g {
+				return nil, false
+			}
+		case *ssa.DebugRef:
+		default:
+			return nil, false
+		}
+	}
+	// every load of the global anywhere is only looked up, ranged over or measured
+	for fn := range ssautil.AllFunctions(e.prog) {
+		for _, b := range fn.Blocks {
+			for _, in := range b.Instrs {
+				ld, ok := in.(*ssa.UnOp)
+				if !ok || ld.X != g || ld.Referrers() == nil {
+					continue
+				}
+				for _, ref := range *ld.Referrers() {
+					switch r := ref.(type) {
+					case *ssa.Lookup:
+						if r.X != ld {
+							return nil, false
+						}
+					case *ssa.Range, *ssa.DebugRef:
+					case *ssa.Call:
+						if bi, ok := r.Call.Value.(*ssa.Builtin); !ok || bi.Name() != "len" {
+							return nil, false
+						}
+					default:
+						return nil, false
+					}
+				}
+			}
+		}
+	}
+	return vals, len(vals) > 0
 }
 
 // constGlobal: never stored to (nor address-escaped) outside init.
